@@ -14,7 +14,7 @@ META = dict(
     functions=['tdma_sched.c: tdma_schedule', 'tdma_schedule_set', 'tdma_sched_advance', 'tdma_sched_execute', '_tdma_sched_bucket_sort', 'tdma_sched_reset', 'tdma_sched_flag_scan', 'wrap_bucket', 'tdma_end_set'],
     bounds=dict(quick='per-operation contracts from an ARBITRARY scheduler state (all item contents arbitrary, ring position symbolic 0..24, fill level of the addressed bucket symbolic 0..8): tdma_schedule with symbolic offset 0..255/params/int16 priority; '
                       'tdma_schedule_set for every set shape of <= 3 frames x <= 2 items with symbolic item fields and symbolic fill levels at ring position/offset pairs {(0,0),(23,1),(24,0),(22,3),(5,24),(24,26)}; advance; reset; execute with ring position in {0, 24} and each fill level 0..4, all priorities symbolic int16 and all parameters symbolic; 3-operation runs schedule(N)->N x advance->execute for N in {0,1,24}',
-                thorough='execute with fill levels 0..4 at every ring position and 5..6 at positions 0 and 24; sets of <= 3 frames x <= 3 items'),
+                thorough='execute with fill levels 0..4 at every ring position and 5 at positions 0 and 24; sets of <= 3 frames x <= 3 items'),
     stubs=['item callbacks: a recording stub returning an arbitrary rc >= 0 (the property speaks of callbacks that report success) and not re-entering the scheduler', 'puts/printf/putchar: empty', 'struct l1s_state object with compiler-computed offsets'],
     outside=['callbacks that schedule further items while executing', 'FIQ/IRQ preemption of the scheduler', 'ARM code generation (host-triple IR of the same source)'],
     assumptions=['abstract ring A[k] = bucket[(cur+k) mod 25]; "an item scheduled N frames ahead runs exactly once, exactly N advances later" follows from the contracts by induction on the history: schedule adds to A[N] only, advance shifts A by one, execute runs and empties A[0] only, reset empties A[1..24]'],
@@ -23,7 +23,7 @@ META = dict(
 
 def jobs(tier, seed):
     out = [('schedule', 'c_schedule', {}), ('advance', 'c_advance', {}), ('reset', 'c_reset', {}), ('flag_scan', 'c_flag_scan', dict(cur=3))]
-    nmax = 6 if tier == 'thorough' else 4
+    nmax = 5 if tier == 'thorough' else 4
     for cur in (range(25) if tier == 'thorough' else (0, 24)):
         for n in range(0, nmax + 1):
             if tier == 'thorough' and n > 4 and cur not in (0, 24): continue
@@ -33,7 +33,7 @@ def jobs(tier, seed):
     for nfr in (1, 2, 3):
         for cnt in itertools.product(range(0, per + 1), repeat=nfr):
             shapes.append(list(cnt))
-    pos = [(0, 0), (23, 1), (24, 0), (22, 3), (5, 24), (24, 26)] if tier == 'quick' else [(c, n) for c in (0, 1, 12, 22, 23, 24) for n in (0, 1, 2, 3, 24, 25, 26, 255)]
+    pos = [(0, 0), (23, 1), (24, 0), (22, 3), (5, 24), (24, 26)] if tier == 'quick' else [(c, n) for c in (0, 1, 12, 22, 23, 24) for n in (0, 1, 2, 3, 12, 24, 25, 26, 100, 252)]     # N + frames <= 255: beyond that the uint8_t frame offset wraps, outside the property (N below the depth)
     for sh in shapes:
         for cur, n in pos:
             out.append(('set.%s.cur=%d.N=%d' % ('-'.join(map(str, sh)), cur, n), 'c_set', dict(groups=sh, cur=cur, N=n)))
